@@ -69,8 +69,9 @@ Proof.
       set (b1 := mkBR (N.lor (r_bits b) (shl64 x (Z.to_N (r_len b)))) (r_len b + 8)%Z rest (r_inlen b - 1)).
       assert (Hl1 : r_inlen b1 = N.of_nat (length (r_in b1))) by (unfold b1; cbn; lia).
       specialize (IH b1 Hl1). cbn zeta in IH. destruct IH as (A1 & A2 & A3).
-      unfold b1 in A2, A3; cbn [r_inlen r_len] in A2, A3.
-      split; [exact A1|]. split; [rewrite A2; lia|]. rewrite A3. lia.
+      split; [exact A1|]. split.
+      * rewrite A2. unfold b1; cbn [r_inlen]. lia.
+      * rewrite A3. unfold b1; cbn [r_inlen r_len]. lia.
 Qed.
 
 Lemma skipn_length_N : forall (l : list N) n, N.of_nat (length (skipn n l)) = N.of_nat (length l) - N.of_nat n.
@@ -85,8 +86,10 @@ Theorem load_raw_spec : forall b,
 Proof.
   intros b (I1 & I2 & I3). unfold load_raw.
   destruct (r_len b <? 0)%Z eqn:Eneg.
-  - rewrite (I3 ltac:(lia)). cbn. exists b. split; [reflexivity|].
-    unfold br_ok, br_inv. repeat split; auto; try lia. left. apply I3. lia.
+  - assert (Hz : r_inlen b = 0) by (apply I3; lia).
+    rewrite Hz. cbn. exists b. split; [reflexivity|].
+    split; [split; [split; [exact I1|split; [exact I2|exact I3]]|left; exact Hz]|].
+    split; [reflexivity|]. split; lia.
   - destruct (64 <? r_len b)%Z eqn:E64; [lia|].
     destruct (8 <=? r_inlen b) eqn:E8.
     + destruct (r_in b) as [|a0 [|a1 [|a2 [|a3 [|a4 [|a5 [|a6 [|a7 rest]]]]]]]] eqn:Ein;
@@ -94,14 +97,17 @@ Proof.
       eexists. split; [reflexivity|].
       set (n := Z.to_N (r_len b)).
       assert (Hn : Z.of_N n = r_len b) by (unfold n; lia).
-      assert (Hc : (n + 7) / 8 <= 8).
-      { apply N.div_le_upper_bound; lia. }
+      assert (Hc : (n + 7) / 8 < 9).
+      { apply N.div_lt_upper_bound; lia. }
       assert (Hc2 : 8 * ((n + 7) / 8) <= n + 7) by (apply N.mul_div_le; lia).
       assert (Hc3 : n + 7 < 8 * ((n + 7) / 8) + 8).
       { pose proof (N.div_mod (n + 7) 8 ltac:(lia)). pose proof (N.mod_lt (n + 7) 8 ltac:(lia)). lia. }
-      unfold br_ok, br_inv, avail; cbn -[skipn N.div].
+      unfold br_ok, br_inv, avail; cbn [r_inlen r_in r_len r_bits].
       rewrite skipn_length_N. cbn [length].
-      repeat split; try lia.
+      fold n. set (c := 8 - (n + 7) / 8).
+      assert (Hcv : c + (n + 7) / 8 = 8) by (unfold c; lia).
+      split; [split; [split; [lia|split; [lia|intros; lia]]|right; lia]|].
+      split; [lia|]. split; lia.
     + eexists. split; [reflexivity|].
       set (n := Z.to_N (r_len b)).
       assert (Hn : Z.of_N n = r_len b) by (unfold n; lia).
@@ -114,8 +120,12 @@ Proof.
       assert (Hd2 : 64 - n < 8 * ((64 - n) / 8) + 8).
       { pose proof (N.div_mod (64 - n) 8 ltac:(lia)). pose proof (N.mod_lt (64 - n) 8 ltac:(lia)). lia. }
       unfold br_ok, br_inv, avail. rewrite A2, A3.
-      repeat split; try lia; auto.
-      unfold size. lia.
+      assert (Hs1 : size <= (64 - n) / 8) by (unfold size; lia).
+      assert (Hs2 : size <= r_inlen b) by (unfold size; lia).
+      assert (Hs3 : size = r_inlen b \/ size = (64 - n) / 8) by (unfold size; lia).
+      split; [split; [split; [rewrite <- A2; exact A1|split; [lia|intros; lia]]|]|].
+      { destruct Hs3 as [Hs3|Hs3]; [left; lia|right; lia]. }
+      split; [lia|]. split; lia.
 Qed.
 
 Theorem load_lt57_spec : forall b,
@@ -125,7 +135,7 @@ Theorem load_lt57_spec : forall b,
 Proof.
   intros b Hi. unfold load_lt57. destruct (r_len b <? 57)%Z eqn:E.
   - apply load_raw_spec; exact Hi.
-  - exists b. split; [reflexivity|]. unfold br_ok. repeat split; auto; try lia. right. lia.
+  - exists b. split; [reflexivity|]. split; [split; [exact Hi|right; lia]|]. split; [reflexivity|]. split; lia.
 Qed.
 
 Theorem load_le15_spec : forall b,
@@ -136,7 +146,7 @@ Proof.
   intros b Hi. unfold load_le15. destruct (r_len b <=? 15)%Z eqn:E.
   - destruct (load_raw_spec b Hi) as (b' & L1 & L2 & L3 & L4 & L5).
     exists b'. split; [exact L1|]. split; [apply (br_ok_weaken 57); [lia|exact L2]|]. auto.
-  - exists b. split; [reflexivity|]. unfold br_ok. repeat split; auto; try lia. right. lia.
+  - exists b. split; [reflexivity|]. split; [split; [exact Hi|right; lia]|]. split; [reflexivity|]. split; lia.
 Qed.
 
 (* the loads keep a stronger lower bound when there is one *)
